@@ -338,7 +338,7 @@ class Run:
               "wall_s": round(time.time() - self.t0, 2), "violations": len(self.violations)}
         json.dump(ev, open(os.path.join(EVID, self.prop + ".json"), "w"), indent=1)
         log("%s %s: evaluations=%d distinct=%d states=%d violations=%d known=%d wall=%.1fs" % (
-            self.prop, self.tier, self.cov["evaluations"], self.cov["distinct_nontrivial"], self.cov["states"],
+            self.prop, self.tier, self.cov["evaluations"], self.cov["distinct_nontrivial"], self.cov.get("states", 0),
             len(self.violations), len(self.known_hits), time.time() - self.t0))
         sys.exit(1 if self.violations else 0)
 
